@@ -392,7 +392,7 @@ def generate(rng, tier):
     k = 1 if tier == "quick" else 8
     gens = [gen_ps(rng, 500 * k), gen_diff(rng, 150 * k), gen_fn(rng, 100 * k), gen_objstm(rng, 250 * k), gen_widths(rng, 250 * k),
             gen_crypt(rng, 250 * k), gen_pages(rng, 80 * k), gen_tree(rng, 150 * k), gen_unpredict(rng, 200 * k), gen_fax(rng, 200 * k),
-            gen_xref(rng, 150 * k), gen_fn0_exhaustive()]
+            gen_xref(rng, 150 * k), gen_fn0_exhaustive(), gen_annot_pages()]
     for g in gens:
         for c in g:
             yield c
@@ -420,6 +420,41 @@ def generate(rng, tier):
     for o in (b"s", b"t"):
         for ch in (b"c", b"n"):
             yield Case("walk", [o, ch, clique], model=False, tags=["planted", "cycle:descendant-clique"], note="cycle:descendant-clique")
+
+
+def _hist(r):
+    """call histogram of a walk: kind -> (ok, err, panic)"""
+    out = {}
+    if r[0] == "OK" and len(r[1]) > 3:
+        for l in r[1][3].decode("latin1").split("\n"):
+            w = l.split(" ")
+            if len(w) == 4:
+                out[w[0]] = tuple(int(x) for x in w[1:])
+    return out
+
+
+def annot_own_page(r):
+    """Table 164: /P is an indirect reference to the page object with which the annotation is associated — an annotation that
+    names its own page loads, and the page read through it is that page"""
+    if r[0] != "OK":
+        return None                      # (reported by `always`)
+    h = _hist(r)
+    if h.get("page.annots.load", (0, 0, 0))[0] < 1:
+        return "the annotations of a page whose annotation names this very page as /P do not load (%s)" % (h.get("page.annots.load"),)
+    if h.get("page.annot.page.own", (0, 0, 0))[0] < 1:
+        return "an annotation whose /P is its own page was loaded without it: no page is read through Annot.page (%s)" % (
+            {k: v for k, v in h.items() if k.startswith("page.annot")},)
+    return None
+
+
+def gen_annot_pages():
+    """planted fragment: Page /Annots [A], A /P -> every object of the fragment; the walker dereferences Annot.page"""
+    from oracle import hostile
+    for tag, data in hostile.annot_page_cases():
+        own = tag.endswith("own-page")
+        for o in (b"s", b"t"):
+            for ch in (b"c", b"n"):
+                yield Case("walk", [o, ch, data], model=False, check=annot_own_page if own else None, tags=["planted", "annot-p", tag], note=tag)
 
 
 # planted numeric fields that reach sites repaired (and proved) by other areas
